@@ -10,7 +10,10 @@ WithM(r) == [coord |-> r.coord, origin |-> r.origin, M |-> Code(FromZYZi(r.e[1],
 
 CaseInit == /\ cid \in 1..Len(Cases)
             /\ LET c == Cases[cid]
-               IN  cs = IF c.mode = "import"
+               IN  cs = IF c.mode = "import" /\ "pxs" \in DOMAIN c
+                        THEN [mode |-> "import", v |-> c.v, px |-> c.px, pxs |-> c.pxs, fmt |-> c.fmt,
+                              rin |-> [i \in 1..Len(c.rin) |-> WithM(c.rin[i])]]
+                        ELSE IF c.mode = "import"
                         THEN [mode |-> "import", v |-> c.v, px |-> c.px, fmt |-> c.fmt, rin |-> [i \in 1..Len(c.rin) |-> WithM(c.rin[i])]]
                         ELSE IF c.mode = "orig"
                         THEN [mode |-> "orig", v |-> c.v, px |-> c.px, fmt |-> c.fmt, rin |-> [i \in 1..Len(c.rin) |-> WithM(c.rin[i])],
